@@ -1618,6 +1618,8 @@ class GroupPhases:
     on_libdrop = _destroy
 
     def finish(self, eng):
+        if getattr(eng.fn, "unexpanded", None):
+            return    # the release may sit in code the analysis could not look into: absence of evidence is no evidence
         for M in self.moveout_maps:
             if M not in self.release_maps and eng.name.endswith("::drop"):
                 # static existence: contents are moved out of group members but no site releases members of that map
